@@ -164,19 +164,25 @@ func (rc *realController) Finalize(release *v1beta1.BatchRelease) error {
 		patchData.UpdateProgressDeadlineSeconds(setting.ProgressDeadlineSeconds)
 		patchData.UpdateMaxSurge(setting.MaxSurge)
 		patchData.UpdateMaxUnavailable(setting.MaxUnavailable)
-		// restore label and annotation
-		patchData.DeleteAnnotation(v1beta1.OriginalDeploymentStrategyAnnotation)
+		// restore label and annotation; the original-strategy annotation is kept until
+		// all pods are updated and ready, so that every retry comes back here and
+		// checks the patched (live) object instead of an empty one
 		patchData.DeleteLabel(v1alpha1.DeploymentStableRevisionLabel)
 		patchData.DeleteAnnotation(util.BatchReleaseControlAnnotation)
 		if err := rc.client.Patch(context.TODO(), d, patchData); err != nil {
 			return err
 		}
 		klog.InfoS("Finalize: deployment bluegreen release: wait all pods updated and ready", "Deployment", klog.KObj(rc.object))
-	}
 
-	// wait all pods updated and ready
-	if err := waitAllUpdatedAndReady(d.(*apps.Deployment)); err != nil {
-		return errors.NewRetryError(err)
+		// wait all pods updated and ready
+		if err := waitAllUpdatedAndReady(d.(*apps.Deployment)); err != nil {
+			return errors.NewRetryError(err)
+		}
+		patchData = patch.NewDeploymentPatch()
+		patchData.DeleteAnnotation(v1beta1.OriginalDeploymentStrategyAnnotation)
+		if err := rc.client.Patch(context.TODO(), d, patchData); err != nil {
+			return err
+		}
 	}
 	klog.InfoS("Finalize: All pods updated and ready, then restore hpa", "Deployment", klog.KObj(rc.object))
 
